@@ -34,22 +34,24 @@ var c17LRs = []lrSpec{
 	{"nil-config", nil, 0.01}, {"zero-value-config", &optimizers.SGDConfig{}, 0}, {"0", &optimizers.SGDConfig{LearningRate: 0}, 0},
 	{"1e-3", &optimizers.SGDConfig{LearningRate: 1e-3}, 1e-3}, {"-1e-3", &optimizers.SGDConfig{LearningRate: -1e-3}, -1e-3},
 	{"0.5", &optimizers.SGDConfig{LearningRate: 0.5}, 0.5}, {"-0.5", &optimizers.SGDConfig{LearningRate: -0.5}, -0.5}, {"2", &optimizers.SGDConfig{LearningRate: 2}, 2},
+	{"1e-200", &optimizers.SGDConfig{LearningRate: 1e-200}, 1e-200}, {"1e150", &optimizers.SGDConfig{LearningRate: 1e150}, 1e150},
+	{"0.01 (the default, given explicitly)", &optimizers.SGDConfig{LearningRate: 0.01}, 0.01}, {"1", &optimizers.SGDConfig{LearningRate: 1}, 1},
 }
 
 func runC17(c *fw.Ctx) {
 	deeperBounds(!c.Quick())
 	for _, shape := range Shapes(0, c.Pick(4, 6), 3) {
 		for _, lr := range c17LRs {
-			for src := 0; src < 4; src++ {
+			for src := 0; src < 5; src++ {
 				shape, lr, src := shape, lr, src
 				c.Case(func(k *fw.K) { c17Case(k, shape, lr, src) })
 			}
 		}
 	}
-	for i := 0; i < c.Pick(1500, 20000); i++ {
+	for i := 0; i < c.Pick(1500, 100000); i++ {
 		c.Case(func(k *fw.K) { c17Invalid(k) })
 	}
-	for i := 0; i < c.Pick(600, 6000); i++ {
+	for i := 0; i < c.Pick(600, 30000); i++ {
 		c.Case(func(k *fw.K) { c17SameObjectTwice(k) })
 	}
 	huge := [][]int{{100, 700}, {70001}, {33, 500}, {4097, 4}, {9, 90, 90}, {129, 128}}
@@ -92,6 +94,18 @@ func c17Weight(k *fw.K, shape []int, src int) (w tensor.Tensor, what string, err
 	}
 	defer func() { what += prov }()
 	switch src {
+	case 4: // the tensor being stepped is itself the RESULT of an operation on a tracked leaf (h = x * a), with a gradient of its own
+		x := rt.MustLeaf(Shuffled(k.Rng, Unique(k.Rng, shape, 0.5, 1.5)), true)
+		h, e := x.Mul(rt.MustLeaf(Shuffled(k.Rng, Unique(k.Rng, shape, 0.5, 1.5)), false))
+		if e != nil {
+			return nil, "", e
+		}
+		y, e := h.Mul(rt.MustLeaf(Shuffled(k.Rng, Unique(k.Rng, shape, 1, 4)), false))
+		if e != nil {
+			return nil, "", e
+		}
+		prov = ""
+		return h, "a derived (non-leaf) tensor holding a gradient", tensor.BackPropagate(y)
 	case 3: // only a part of the weight is used: y = w[first row ...] * c, the gradient is zero elsewhere
 		if len(shape) == 0 {
 			break
@@ -169,6 +183,8 @@ func c17Case(k *fw.K, shape []int, lr lrSpec, src int) {
 		k.Failf("NewSGD(%s): panic=%v", lr.name, p)
 		return
 	}
+	// a second optimizer with another learning rate is built AFTER the one under test and steps a tensor in between
+	disturber := optimizers.NewSGD(&optimizers.SGDConfig{LearningRate: 3.25})
 	var slot tensor.Tensor // ONE variable (one address) holds the tensor of every round
 	shape0 := shape
 	for round := 0; round < 2; round++ { // the same optimizer updates two different tensors
@@ -200,10 +216,18 @@ func c17Case(k *fw.K, shape []int, lr lrSpec, src int) {
 				}
 			})
 		}
+		if k.Rng.Intn(2) == 0 {
+			call(func() {
+				if dw, _, e := c17Weight(k, shape, 1); e == nil {
+					_ = disturber.Update(&dw)
+					k.Count("updates_by_a_second_optimizer_in_between", 1)
+				}
+			})
+		}
 		var w tensor.Tensor
 		var what string
 		var err error
-		if p := call(func() { w, what, err = c17Weight(k, shape, (src+round)%4) }); p != nil || err != nil {
+		if p := call(func() { w, what, err = c17Weight(k, shape, (src+round)%5) }); p != nil || err != nil {
 			k.Failf("building a weight with a gradient failed: panic=%v err=%v", p, err)
 			return
 		}
